@@ -877,9 +877,11 @@ static hostrange_t hostrange_intersect(hostrange_t h1, hostrange_t h2)
     if (h1->singlehost || h2->singlehost)
         return NULL;
 
-    assert(hostrange_cmp(h1, h2) <= 0);
-
+    /* h1 must start first: hostlist_coalesce() edits bounds, after which a
+     * pair may no longer be in hostrange_cmp() order -- such a pair is
+     * left alone (it used to free a range that was still in use) */
     if ((hostrange_prefix_cmp(h1, h2) == 0)
+        && (h1->lo <= h2->lo)
         && (h1->hi > h2->lo)
         && (hostrange_width_combine(h1, h2))) {
 
